@@ -19,6 +19,13 @@
         runs over the repository's fixtures (and during (ii)); TLC's monitor (ZipGuard!MayRead)
         rejects any member read on a container that was not validated first.
    (iv) validate_zip_bytesio at stream positions {0, mid, end} x {accept, reject, not-a-zip}.
+
+Entry metadata.  What makes an entry a directory is the trailing "/" of its NAME (zipfile.ZipInfo.is_dir());
+external_attr (DOS directory bit, Unix S_IFDIR / S_IFLNK, read-only), create_system, flag bits and the
+compression method are drawn by the harnesses independently of the name (table META): every lattice vector is
+executed under each metadata variant, every clause's rejecting forged ZIP, real directory entries and honest
+(really deflated, ~1000:1) bombs are built with each variant.  The specification never sees the metadata (its
+verdict depends on name and sizes only; ZipGuard.tla proves the loop ignores the `ab` bit, deviation DirByAttr).
 """
 from __future__ import annotations
 
@@ -43,7 +50,7 @@ from ..tlaval import iter_dump, to_tla
 from ..tlc import MachineryError, run_tlc
 from ..traces import validate
 
-LOOP_DEVS = ["CountGe", "SingleGe", "EntryRatioGe", "TotalGe", "TotalRatioGe", "DropCount", "DropSingle",
+LOOP_DEVS = ["DirByAttr", "CountGe", "SingleGe", "EntryRatioGe", "TotalGe", "TotalRatioGe", "DropCount", "DropSingle",
              "DropZeroCs", "DropEntryRatio", "DropTotal", "DropTotalRatio", "CountDirs", "EntryRatioSwapped",
              "TotalRatioSwapped"]
 PROTO_DEVS = ["DirectConstruct", "ReadBeforeValidate", "ReturnRejected", "XlsxSkipsValidate", "NoRestorePos"]
@@ -53,21 +60,39 @@ FS_RED, CS_RED = "{0,1,4,5,7}", "{0,1,3}"
 BASE = 32768
 TARGETS = ["docx", "pptx", "xlsx", "odt", "ods", "odp", "odg", "odf", "epub", "odfprobe"]
 TR_CFG = f"SPECIFICATION TraceSpec\nCONSTRAINT TraceAccept\nCONSTANTS Deviations = {{}}\n FS = {{0}}\n CS = {{0}}\n" \
-         f" MaxN = 0\n LimitSets <- LS_Base\n Base = {BASE}\n"
+         f" MaxN = 0\n AttrBits = {{FALSE}}\n LimitSets <- LS_Base\n Base = {BASE}\n"
+
+# Entry metadata the harnesses draw INDEPENDENTLY of the name (the only thing that makes an entry a directory):
+# (external_attr, create_system, general-purpose flag bits, compression method).  The specification never
+# sees them: its verdict depends on the name (trailing "/") and the two sizes only.
+S_IFREG, S_IFDIR, S_IFLNK = 0o100000, 0o040000, 0o120000
+META = [
+    (0, 0, 0, 0),                                   # what zipfile.ZipInfo() defaults to (stored)
+    ((S_IFREG | 0o644) << 16, 3, 0, 8),             # Unix regular file, deflated
+    (0x10, 0, 0, 8),                                # MS-DOS directory bit
+    (((S_IFREG | 0o644) << 16) | 0x10, 3, 0x800, 8),   # Unix regular file + DOS directory bit, UTF-8 flag
+    ((S_IFDIR | 0o755) << 16, 3, 0, 8),             # Unix S_IFDIR, no DOS bit
+    (((S_IFDIR | 0o755) << 16) | 0x10, 3, 0, 0),    # both directory markers, stored
+    ((S_IFLNK | 0o777) << 16, 3, 0, 8),             # Unix symlink
+    (0x01, 0, 0x08, 8),                             # DOS read-only, data-descriptor flag
+    (0x20 | 0x02, 0, 0x02, 12),                     # DOS archive + hidden, bzip2
+]
+META_NAMES = ["default", "unix-file", "dos-dir", "unix-file|dos-dir", "unix-dir", "unix-dir|dos-dir,stored",
+              "unix-symlink", "dos-readonly,dd-flag", "dos-archive,bzip2"]
 
 
-def _loop_cfg(fs, cs, maxn, ls, dev="", invs=None):
+def _loop_cfg(fs, cs, maxn, ls, dev="", invs=None, ab="{FALSE}"):
     invs = invs or ["Inv_LoopEqualsReject", "Inv_LoopConforms", "Inv_WhyFired", "Inv_Accumulators",
                     "Inv_TotZeroRedundant", "Inv_OracleConsistent"]
     d = "{" + (f'"{dev}"' if dev else "") + "}"
     return (f"SPECIFICATION Spec\nCONSTANTS Deviations = {d}\n FS = {fs}\n CS = {cs}\n MaxN = {maxn}\n"
-            f" LimitSets <- {ls}\n" + "".join(f"INVARIANT {x}\n" for x in invs))
+            f" AttrBits = {ab}\n LimitSets <- {ls}\n" + "".join(f"INVARIANT {x}\n" for x in invs))
 
 
 def _proto_cfg(dev=""):
     d = "{" + (f'"{dev}"' if dev else "") + "}"
     return (f"SPECIFICATION ProtoSpec\nCONSTANTS Deviations = {d}\n FS = {{0}}\n CS = {{0}}\n MaxN = 0\n"
-            " LimitSets <- LS_Base\nINVARIANT Inv_ValidateBeforeRead\nINVARIANT Inv_RejectedNotHeld\n"
+            " AttrBits = {FALSE}\n LimitSets <- LS_Base\nINVARIANT Inv_ValidateBeforeRead\nINVARIANT Inv_RejectedNotHeld\n"
             "INVARIANT Inv_AcceptedAreGood\nPROPERTY Prop_PosRestored\n")
 
 
@@ -143,22 +168,28 @@ def run(ctx):
                                  _loop_cfg(FS_RED, CS_RED, 2, "LS_Quick", invs=["Inv_BigAgrees"])
                                  .replace("SPECIFICATION Spec", "SPECIFICATION BigSpec") + "CONSTANTS Base = 4\n",
                                  workers=2, timeout=600)
+    fut["meta"] = pool.submit(_tlc, ctx, "ZipGuard",
+                              _loop_cfg(FS_FULL if T else FS_RED, CS_FULL if T else CS_RED, 2, "LS_Quick", ab="{FALSE, TRUE}"),
+                              workers=4, timeout=900)
     fut["proto"] = pool.submit(_tlc, ctx, "ZipGuard", _proto_cfg(), workers=2, timeout=600)
     if os.environ.get("C11_DEV_SKIP_THEOREMS") == "1":      # development aid for the mutation self-test only:
-        for k in ("loop3", "loopvar", "big"):                # skips spec-only runs, nothing about the code
+        for k in ("loop3", "loopvar", "big", "meta"):        # skips spec-only runs, nothing about the code
             fut[k].cancel()
             fut[k] = fut["proto"]
     sens = {}
-    # thorough: all 19 mutations of the specification; quick: 3 loop + 1 protocol mutation, rotated by the seed
+    # thorough: all 20 mutations of the specification; quick: DirByAttr + 2 loop + 1 protocol mutation (rotated)
     if os.environ.get("C11_DEV_SKIP_THEOREMS") == "1":
         LOOP, PROTO = [], PROTO_DEVS[:1]
     else:
         LOOP, PROTO = LOOP_DEVS, PROTO_DEVS
-    loop_devs = LOOP if T else [LOOP[(ctx.seed * 3 + k) % len(LOOP)] for k in range(3 if LOOP else 0)]
+    loop_devs = LOOP if T else sorted({LOOP[0]} | {LOOP[1 + (ctx.seed * 2 + k) % (len(LOOP) - 1)] for k in range(2)}) \
+        if LOOP else []
     proto_devs = PROTO if T else [PROTO[ctx.seed % len(PROTO)]]
     for d in loop_devs:
         sens[d] = pool.submit(_tlc, ctx, "ZipGuard",
-                              _loop_cfg(FS_FULL, CS_FULL, 2, "LS_Quick", dev=d, invs=["Inv_LoopConforms"]),
+                              _loop_cfg(FS_RED if d == "DirByAttr" else FS_FULL, CS_RED if d == "DirByAttr" else CS_FULL,
+                                        2, "LS_Quick", dev=d, invs=["Inv_LoopConforms"],
+                                        ab="{FALSE, TRUE}" if d == "DirByAttr" else "{FALSE}"),
                               workers=1, timeout=600, expect_fail=True, heap="1g")
     for d in proto_devs:
         sens[d] = pool.submit(_tlc, ctx, "ZipGuard", _proto_cfg(d), workers=1, timeout=600,
@@ -170,8 +201,9 @@ def run(ctx):
     names = {"loop3": "ZipGuard loop = Reject, <= 3 entries, limits {L0, maxEntries 3}",
              "loopvar": "ZipGuard loop = Reject, <= 2 entries, " + ("243 limit variants" if T else "limits {L0, L1, L2}"),
              "big": "ZipGuardBig: limb predicate = integer predicate on the overlap (Base 4)",
+             "meta": "ZipGuard loop = Reject with the metadata bit free (verdict depends on name and sizes only)",
              "proto": "ZipGuard protocol: held => MayRead, rejected never held, position restored"}
-    for k in ("loop3", "loopvar", "big", "proto"):
+    for k in ("loop3", "loopvar", "big", "meta", "proto"):
         r = fut[k].result()
         ev.tlc(names[k], r)
         if r.violated:
@@ -278,7 +310,7 @@ def _lattice_jobs(ctx):
         tag, spec, cfg = item
         dump = ctx.scratch / f"gen-{tag}.dump"
         r = _tlc(ctx, spec, cfg, dump=dump, workers=2, timeout=1500, heap="3g")
-        p, out = _spawn(ctx, "lattice", tag, {"dump": str(_dump_path(dump)), "distinct": r.distinct})
+        p, out = _spawn(ctx, "lattice", tag, {"dump": str(_dump_path(dump)), "distinct": r.distinct, "seed": ctx.seed})
         return tag, r, p, out
     ex = ThreadPoolExecutor(max_workers=6)
     return [ex.submit(one, it) for it in specs]
@@ -290,7 +322,7 @@ def _dump_path(d):
 
 def _collect_lattice(ctx, futs):
     ev, v = ctx.ev, ctx.v
-    total = 0
+    total = nexec = 0
     for f in futs:
         tag, r, p, out = f.result()
         ev.tlc(f"ZipGuardGen {tag}: lattice vectors with TLC's class", r)
@@ -299,8 +331,10 @@ def _collect_lattice(ctx, futs):
         for fn in res["trace_files"]:
             traces += json.loads(Path(fn).read_text())
         ncase = sum(len(t["ev"]) for t in traces)
-        if ncase != r.distinct:
-            raise MachineryError(f"lattice {tag}: {ncase} cases replayed, TLC enumerated {r.distinct}")
+        if res["nvec"] != r.distinct or ncase < r.distinct:
+            raise MachineryError(f"lattice {tag}: {res['nvec']} vectors / {ncase} observations replayed, TLC "
+                                 f"enumerated {r.distinct}")
+        nexec += res["nexec"]
         br = _pvalidate(ctx, traces, 10 if ctx.thorough else 4)
         ev.tlc_counts(f"ZipGuardTrace lattice {tag}: observations decided by TLC", br.distinct, br.states, br.wall_s)
         for t, tv in zip(traces, br.verdicts):
@@ -316,7 +350,8 @@ def _collect_lattice(ctx, futs):
             v.violation(what=f"validate_zipfile on entries {e['es']} (fs, cs, dir) with limits "
                              f"(maxEntries, maxSingle, maxTotal, trNum, trDen, erNum, erDen) = {t['hdr']['lim']}: "
                              f"{ {'bomb': 'raised ExtractionZipBombError', 'ok': 'accepted', 'other': 'raised another exception'}[e['obs']]}"
-                             f" [{e.get('exc', '')}], specification class = {e['exp']} (fired {e['fired']})",
+                             f" [{e.get('exc', '')}] with entry metadata {e.get('meta')}, "
+                             f"specification class = {e['exp']} (fired {e['fired']})",
                         case={"entries": e["es"], "limits": t["hdr"]["lim"]}, expected=e["exp"],
                         observed=e["obs"], where="zip_bomb.py:validate_zipfile")
             v.ok(max(tv.reached, 0))
@@ -329,20 +364,20 @@ def _collect_lattice(ctx, futs):
         for fn in res["trace_files"]:
             Path(fn).unlink(missing_ok=True)
     ev.replayed(total)
-    ctx.log(f"(i) {total} lattice vectors replayed through validate_zipfile and decided by TLC")
+    ctx.log(f"(i) {total} lattice observations ({nexec} executions of validate_zipfile: every vector under "
+            f"{len(META)} entry-metadata variants + a mixed one) decided by TLC")
 
 
 # --------------------------------------------------------------------------- (ii) decide real-file observations
 def _decide_real(ctx, outs):
     ev, v = ctx.ev, ctx.v
     traces, cover = [], []
-    for o in outs:
-        evs = []
+    for o in outs:                  # one single-event trace per (target, case): every mismatch is reported
         for c in o["cases"]:
-            evs.append({"a": "BigCase", "gs": c["gs"], "rej": c["rej"], "who": o["target"], "k": c["label"]})
             cover.append({"a": "Cover", "k": len(cover) + 1, "gs": c["gs"]})
-        traces.append({"id": "real:" + o["target"], "hdr": _hdr("big", blim=o["blim"]), "ev": evs, "cases": o["cases"],
-                       "target": o["target"]})
+            traces.append({"id": f"real:{o['target']}:{c['label']}", "hdr": _hdr("big", blim=o["blim"]),
+                           "ev": [{"a": "BigCase", "gs": c["gs"], "rej": c["rej"], "who": o["target"], "k": c["label"]}],
+                           "cases": [c], "target": o["target"]})
     # TLC classifies every proposed vector (adequacy of the proposals: every clause alone, both classes)
     cf = ctx.scratch / "cover.json"
     cf.write_text(json.dumps([{"id": "cover", "hdr": traces[0]["hdr"], "ev": cover}]))
@@ -379,22 +414,16 @@ def _decide_real(ctx, outs):
         if tv.accepted:
             v.ok(tv.length)
             continue
-        if tv.reached < 0:
-            v.violation(what=f"{t['target']}: TLC rejects the outcome classes recorded for the forged ZIPs "
-                             f"(event not localised): {[(c['label'], c['outcome']) for c in t['cases']]}",
-                        case={"target": t["target"]}, where="zip_bomb.py / the extractor's error mapping")
-            continue
-        c = t["cases"][tv.reached]
-        v.violation(what=f"{t['target']}: forged ZIP '{c['label']}' (default limits; forged entries {c['forged']}, "
+        c = t["cases"][0]
+        v.violation(what=f"{t['target']}: ZIP '{c['label']}' (default limits; forged / honest members {c['forged']}, "
                          f"{c['nentries']} entries) -> outcome {c['outcome']}; the specification says "
                          f"{'ZipBomb' if not c['rej'] else 'anything but ZipBomb'}",
                     case={"target": t["target"], "label": c["label"], "forged": c["forged"]},
                     expected="ZipBomb" if not c["rej"] else "accepted", observed=c["outcome"],
                     where="zip_bomb.py:validate_zipfile / open_zipfile / the extractor's error mapping")
-        v.ok(tv.reached)
     ev.replayed(n)
-    for t in traces[:3]:
-        c = t["cases"][len(t["cases"]) // 2]
+    for t in traces[len(traces) // 7:: max(1, len(traces) // 3)][:3]:
+        c = t["cases"][0]
         ev.sample({"target": t["target"], "label": c["label"], "forged": c["forged"], "outcome": c["outcome"]}, cap=8)
 
 
@@ -662,15 +691,18 @@ def _w_lattice(tag, job, out):
             return self._i
     infos = {}
 
-    def info(fs, cs, d):
-        k = (fs, cs, d)
+    def info(fs, cs, d, m):
+        # the NAME decides `d` (trailing slash); the metadata variant m is drawn independently of it
+        k = (fs, cs, d, m)
         if k not in infos:
             zi = zipfile.ZipInfo("d%d_%d/" % (fs, cs) if d else "f%d_%d.bin" % (fs, cs))
             zi.file_size, zi.compress_size = fs, cs
-            if bool(zi.is_dir()) != bool(d):
-                raise MachineryError("ZipInfo.is_dir does not follow the trailing slash")
+            zi.external_attr, zi.create_system, zi.flag_bits, zi.compress_type = META[m]
+            if zi.filename.endswith("/") != bool(d) or bool(zi.is_dir()) != bool(d):
+                raise MachineryError("ZipInfo.is_dir does not follow the trailing slash of the name")
             infos[k] = zi
         return infos[k]
+    rng = random.Random(job.get("seed", 0) * 104729 + sum(map(ord, tag)))
     bylim = {}
     n = 0
     for s in iter_dump(job["dump"]):
@@ -679,6 +711,7 @@ def _w_lattice(tag, job, out):
     if n != job["distinct"]:
         raise MachineryError(f"dump has {n} states, TLC reported {job['distinct']}")
     traces, nontrivial, samples = [], [], []
+    nexec = 0
     for lt in sorted(bylim):
         me, ms, mt, trn, trd, ern, erd = lt
         limits = zip_bomb.ZipBombLimits(max_entries=me, max_total_uncompressed_bytes=mt,
@@ -691,16 +724,28 @@ def _w_lattice(tag, job, out):
         evs = []
         nt = 0
         for vec, exp, fired in sorted(bylim[lt]):
-            zf = Stub([info(*e) for e in vec])
-            exc = ""
-            try:
-                zip_bomb.validate_zipfile(zf, limits=limits, source="c11")
-                obs = "ok"
-            except ExtractionZipBombError as ex:
-                obs, exc = "bomb", str(ex)[:60]
-            except Exception as ex:         # wrong exception type: neither the bomb error nor acceptance
-                obs, exc = "other", type(ex).__name__
-            evs.append({"a": "Case", "es": [list(e) for e in vec], "obs": obs, "exp": exp, "fired": fired, "exc": exc})
+            # every vector is executed under each metadata variant on all entries + one seeded mixed assignment;
+            # the specification does not see the metadata, so one event per DISTINCT observation is recorded
+            assigns = [[m] * len(vec) for m in range(len(META))] if vec else [[]]
+            if len(vec) > 1:
+                assigns.append([rng.randrange(len(META)) for _ in vec])
+            seen = {}
+            for asg in assigns:
+                zf = Stub([info(*e, m) for e, m in zip(vec, asg)])
+                exc = ""
+                try:
+                    zip_bomb.validate_zipfile(zf, limits=limits, source="c11")
+                    obs = "ok"
+                except ExtractionZipBombError as ex:
+                    obs, exc = "bomb", str(ex)[:60]
+                except Exception as ex:         # wrong exception type: neither the bomb error nor acceptance
+                    obs, exc = "other", type(ex).__name__
+                nexec += 1
+                seen.setdefault(obs, (exc, asg))
+            for obs, (exc, asg) in sorted(seen.items()):
+                evs.append({"a": "Case", "es": [list(e) for e in vec], "obs": obs, "exp": exp, "fired": fired,
+                            "exc": exc, "meta": "all %d metadata assignments" % len(assigns) if len(seen) == 1
+                            else [META_NAMES[m] for m in asg]})
             if exp == "reject":
                 nt += 1
         nontrivial.append((list(lt), nt))
@@ -716,7 +761,7 @@ def _w_lattice(tag, job, out):
         fn = Path(job["scratch"]) / f"lat-{tag}-{k}.json"
         fn.write_text(json.dumps(traces[k:k + 200]))
         files.append(str(fn))
-    Path(out).write_text(json.dumps({"trace_files": files, "nontrivial": [[i, n] for i, (lt, n) in enumerate(nontrivial) if n],
+    Path(out).write_text(json.dumps({"trace_files": files, "nvec": n, "nexec": nexec, "nontrivial": [[i, n] for i, (lt, n) in enumerate(nontrivial) if n],
                                      "samples": samples}))
 
 
@@ -733,7 +778,11 @@ def build_zip(members):
     cd = []
     for m in members:
         name = m["name"].encode("utf-8")
-        flags = 0x800 if any(c > 127 for c in name) else 0
+        flags = (0x800 if any(c > 127 for c in name) else 0) | m.get("flags", 0)
+        attr = m.get("attr")
+        if attr is None:
+            attr = (0o40755 << 16) | 0x10 if m["dir"] else (0o100644 << 16)
+        system = m.get("system", 3)
         z64 = m["fs"] >= 0xFFFFFFFF or m["cs"] >= 0xFFFFFFFF
         extra = struct.pack("<HHQQ", 1, 16, m["fs"], m["cs"]) if z64 else b""
         fs32 = 0xFFFFFFFF if z64 else m["fs"]
@@ -742,9 +791,8 @@ def build_zip(members):
         off = out.tell()
         out.write(struct.pack("<4sHHHHHIIIHH", b"PK\x03\x04", ver, flags, m["method"], 0, 0x21, m["crc"], cs32, fs32,
                               len(name), len(extra)) + name + extra + m["raw"])
-        cd.append(struct.pack("<4sHHHHHHIIIHHHHHII", b"PK\x01\x02", (3 << 8) | ver, ver, flags, m["method"], 0, 0x21,
-                              m["crc"], cs32, fs32, len(name), len(extra), 0, 0, 0,
-                              (0o40755 << 16) | 0x10 if m["dir"] else (0o100644 << 16), off) + name + extra)
+        cd.append(struct.pack("<4sHHHHHHIIIHHHHHII", b"PK\x01\x02", (system << 8) | ver, ver, flags, m["method"], 0,
+                              0x21, m["crc"], cs32, fs32, len(name), len(extra), 0, 0, 0, attr, off) + name + extra)
     cd_off = out.tell()
     blob = b"".join(cd)
     out.write(blob)
@@ -754,10 +802,20 @@ def build_zip(members):
     return out.getvalue()
 
 
-def _member(name, payload, fs=None, cs=None, is_dir=False, stored=False):
+def _member(name, payload, fs=None, cs=None, is_dir=False, stored=False, meta=None, forged_method=False):
+    """is_dir must equal name.endswith("/") (the name decides).  meta = index into META: external_attr,
+    create_system, flag bits -- and, for forged members only (nobody reads them), the claimed method."""
+    if is_dir != name.endswith("/"):
+        raise MachineryError("harness: directory entries are exactly the names ending in '/'")
     raw = payload if stored else _deflate(payload)
-    return {"name": name, "raw": raw, "method": 0 if stored else 8, "crc": zlib.crc32(payload) & 0xFFFFFFFF,
-            "fs": len(payload) if fs is None else fs, "cs": len(raw) if cs is None else cs, "dir": is_dir}
+    m = {"name": name, "raw": raw, "method": 0 if stored else 8, "crc": zlib.crc32(payload) & 0xFFFFFFFF,
+         "fs": len(payload) if fs is None else fs, "cs": len(raw) if cs is None else cs, "dir": is_dir}
+    if meta is not None:
+        m["attr"], m["system"], m["flags"], meth = META[meta]
+        m["meta"] = meta
+        if forged_method:
+            m["method"] = meth
+    return m
 
 
 def _base_members(path):
@@ -774,11 +832,18 @@ def _base_members(path):
 
 
 def propose(lim, bU, bC, bN, rng):
-    """Boundary vectors at the running limits: [(label, [(fs, cs, dir)...], npad_files, npad_dirs)].
-    Only concretisation: TLC classifies every one of them (Cover) and decides every observation."""
+    """Boundary cases at the running limits.  A case = dict(label, forged=[(fs, cs, dir, meta)], honest=[(kind,
+    meta)], npf, npd, base_meta).  forged: members whose local AND central headers claim (fs, cs); honest: really
+    compressed members (no forged sizes); meta: index into META (None = plain), drawn independently of the
+    name.  Only concretisation: TLC classifies every case (Cover) and decides every observation."""
     ME, MS, MT = lim["me"], lim["ms"], lim["mt"]
     TR, ER = Fraction(lim["trn"], lim["trd"]), Fraction(lim["ern"], lim["erd"])
-    V = [("base", [], 0, 0)]
+    V = []
+
+    def case(label, forged=(), honest=(), npf=0, npd=0, base_meta=None):
+        V.append({"label": label, "forged": [tuple(e) + (None,) * (4 - len(e)) for e in forged],
+                  "honest": list(honest), "npf": npf, "npd": npd, "base_meta": base_meta})
+    case("base")
 
     def ballast(fs, cs):
         # entry with ratio 1 that keeps the whole-container ratio below its limit
@@ -788,51 +853,86 @@ def propose(lim, bU, bC, bN, rng):
         x = max(0, int(need) + 1) + 1000
         return [(x, x, 0)]
 
-    def single(d):
-        return [(MS + d, MS + d, 0)]
+    def single(d, m=None):
+        return [(MS + d, MS + d, 0, m)]
 
-    def entry_ratio(d, c0=None):
+    def entry_ratio(d, c0=None, m=None):
         c0 = c0 or lim["erd"] * 1000
         fs = int(ER * c0) + d
-        return [(fs, c0, 0)] + ballast(fs, c0)
+        return [(fs, c0, 0, m)] + ballast(fs, c0)
 
-    def total(d):
+    def total(d, m=None):
         rem, out = MT + d - bU, []
         while rem > MS:
-            out.append((MS, MS, 0))
+            out.append((MS, MS, 0, m))
             rem -= MS
-        return out + [(rem, rem, 0)]
+        return out + [(rem, rem, 0, m)]
 
-    def tot_ratio(d, c0=None):
+    def tot_ratio(d, c0=None, m=None):
         c0 = c0 or max(100000, 2 * bC)
         c0 += (-(bC + c0)) % lim["trd"]
         fs = int(TR * (bC + c0)) - bU + d
-        return [(max(fs, 0), c0, 0)]
+        return [(max(fs, 0), c0, 0, m)]
     for d in (-1, 0, 1):
-        V.append((f"single{d:+d}", single(d), 0, 0))
-        V.append((f"entryratio{d:+d}", entry_ratio(d), 0, 0))
-        V.append((f"total{d:+d}", total(d), 0, 0))
-        V.append((f"totratio{d:+d}", tot_ratio(d), 0, 0))
-    V += [("zerocs fs=1", [(1, 0, 0), (5, 5, 0)], 0, 0), ("zerocs fs=0", [(0, 0, 0)], 0, 0),
-          ("fs=0 cs=7", [(0, 7, 0)], 0, 0),
-          ("dir huge", [(MS + 1, 1, 1)], 0, 0), ("dir zero cs", [(3 * MS, 0, 1)], 0, 0),
-          ("dir zip64", [(2 ** 33 + 5, 2 ** 33 + 5, 1)], 0, 0),
-          ("zip64 single", [(2 ** 32 + 5, 2 ** 32 + 5, 0)], 0, 0),
-          ("single+zerocs", [(MS + 1, 0, 0)], 0, 0),
-          ("single+1 and ratio", [(MS + 1, 1000, 0)], 0, 0)]
+        case(f"single{d:+d}", single(d))
+        case(f"entryratio{d:+d}", entry_ratio(d))
+        case(f"total{d:+d}", total(d))
+        case(f"totratio{d:+d}", tot_ratio(d))
+    case("zerocs fs=1", [(1, 0, 0), (5, 5, 0)])
+    case("zerocs fs=0", [(0, 0, 0)])
+    case("fs=0 cs=7", [(0, 7, 0)])
+    case("dir huge", [(MS + 1, 1, 1)])
+    case("dir zero cs", [(3 * MS, 0, 1)])
+    case("dir zip64", [(2 ** 33 + 5, 2 ** 33 + 5, 1)])
+    case("zip64 single", [(2 ** 32 + 5, 2 ** 32 + 5, 0)])
+    case("single+zerocs", [(MS + 1, 0, 0)])
+    case("single+1 and ratio", [(MS + 1, 1000, 0)])
     if ME + 1 <= 0xFFFF and ME - bN >= 1:
-        V += [("count+0", [], ME - bN, 0), ("count+1", [], ME + 1 - bN, 0),
-              ("count+1 incl 1 dir", [], ME - bN, 1)]
+        case("count+0", npf=ME - bN)
+        case("count+1", npf=ME + 1 - bN)
+        case("count+1 incl 1 dir", npf=ME - bN, npd=1)
+    # entry metadata, independent of the name: every clause's rejecting vector with each metadata variant on
+    # the offending REGULAR member; real directory entries (trailing slash) with each variant; honest bombs
+    for m in range(len(META)):
+        mn = META_NAMES[m]
+        case(f"single+1 [{mn}]", single(1, m=m))
+        case(f"entryratio+1 [{mn}]", entry_ratio(1, m=m))
+        case(f"totratio+1 [{mn}]", tot_ratio(1, m=m))
+        case(f"total+1 [{mn}]", total(1, m=m))
+        case(f"zerocs fs=1 [{mn}]", [(1, 0, 0, m), (5, 5, 0, m)])
+        case(f"dir huge [{mn}]", [(MS + 1, 1, 1, m), (3 * MS, 0, 1, m)])
+        case(f"honest bomb [{mn}]", honest=[("bomb", m)])
+    case("honest ratio~200 [default]", honest=[("mild", 0)])
+    case("honest ratio~200 [dos-dir]", honest=[("mild", 2)])
+    case("honest bomb, plain", honest=[("bomb", None)])
+    case("total+1, every base member [dos-dir]", total(1), base_meta=2)
+    case("base, every base member [unix-dir|dos-dir]", base_meta=5)
+    case("base, every base member [unix-symlink]", base_meta=6)
     fam = [single, entry_ratio, total, tot_ratio]
     for k in range(4):
         f = rng.choice(fam)
         d = rng.choice((-1, 0, 1))
+        m = rng.randrange(len(META))
         if f in (entry_ratio, tot_ratio):
             c0 = rng.randrange(1, 4000) * lim["erd"] * lim["trd"] * (1 if f is entry_ratio else 500)
-            V.append((f"rnd{k} {f.__name__}{d:+d} c0={c0}", f(d, c0), 0, 0))
+            case(f"rnd{k} {f.__name__}{d:+d} c0={c0} [{META_NAMES[m]}]", f(d, c0, m=m))
         else:
-            V.append((f"rnd{k} {f.__name__}{d:+d} +noise", f(d) + [(0, rng.randrange(0, 9), 0)], 0, 0))
+            case(f"rnd{k} {f.__name__}{d:+d} +noise [{META_NAMES[m]}]", f(d, m=m) + [(0, rng.randrange(0, 9), 0, m)])
     return V
+
+
+_HONEST = {}
+
+
+def _honest_payload(kind):
+    """Really compressible content (no forged sizes): 'bomb' deflates about 1000:1, 'mild' about 200:1."""
+    if kind not in _HONEST:
+        if kind == "bomb":
+            _HONEST[kind] = b"<p>hello</p>" + b" " * 3_000_000
+        else:
+            noise = b"".join(hashlib.sha256(b"c11-%d" % k).digest() for k in range(80))     # 2560 incompressible bytes
+            _HONEST[kind] = noise + b" " * 600_000
+    return _HONEST[kind]
 
 
 def _w_real(tag, job, out):
@@ -860,17 +960,41 @@ def _w_real(tag, job, out):
     fn = _extractors()[tag]
     rng = random.Random(job["seed"] * 7919 + TARGETS.index(tag))
     cases, proto = [], []
-    for label, forged, npf, npd in propose(lim, bU, bC, len(base), rng):
+    honest_cache = {}
+    for c in propose(lim, bU, bC, len(base), rng):
+        label, forged, npf, npd = c["label"], c["forged"], c["npf"], c["npd"]
         ms = list(base)
-        for k, (fs, cs, d) in enumerate(forged):
+        if c["base_meta"] is not None:          # same members, same bytes, other metadata
+            a, sy, fl, _ = META[c["base_meta"]]
+            ms = [dict(m, attr=a, system=sy, flags=fl, meta=c["base_meta"]) for m in base]
+        for k, (fs, cs, d, mi) in enumerate(forged):
             ms.append(_member(f"zz-forged/d{k}/" if d else f"zz-forged/f{k}.bin", b"" if d else b"forged payload",
-                              fs=fs, cs=cs, is_dir=bool(d), stored=bool(d)))
+                              fs=fs, cs=cs, is_dir=bool(d), stored=bool(d), meta=mi, forged_method=not d))
+        for k, (kind, mi) in enumerate(c["honest"]):
+            if kind not in honest_cache:
+                honest_cache[kind] = _member(f"zz-honest/{kind}.xml", _honest_payload(kind))
+            hm = dict(honest_cache[kind], name=f"zz-honest/{kind}{k}.xml")
+            if mi is not None:
+                hm["attr"], hm["system"], hm["flags"], _ = META[mi]        # really deflated: method stays 8
+                hm["meta"] = mi
+            ms.append(hm)
         ms += [_member(f"zz-pad/{k:05d}.txt", b"x", stored=True) for k in range(npf)]
         ms += [_member(f"zz-pad/dir{k:05d}/", b"", is_dir=True, stored=True) for k in range(npd)]
         data = build_zip(ms)
-        # the vector TLC decides on is what the stdlib reads back from the file
+        # the vector TLC decides on is what the stdlib reads back from the file; the dir bit is the NAME's
         with zipfile.ZipFile(io.BytesIO(data)) as zf:
-            seen = [(zi.file_size, zi.compress_size, 1 if zi.is_dir() else 0) for zi in zf.infolist()]
+            infos = zf.infolist()
+            seen = [(zi.file_size, zi.compress_size, 1 if zi.filename.endswith("/") else 0) for zi in infos]
+            for zi, m in zip(infos, ms):
+                if "meta" in m and (zi.external_attr, zi.create_system, zi.flag_bits & ~0x800) != \
+                        (m["attr"], m["system"], m["flags"] & ~0x800):
+                    raise MachineryError(f"forged ZIP '{label}': metadata of {zi.filename} reads back differently")
+                if bool(zi.is_dir()) != zi.filename.endswith("/"):
+                    raise MachineryError("zipfile.ZipInfo.is_dir() does not follow the trailing slash of the name")
+            for k, (kind, mi) in enumerate(c["honest"]):     # honest members really inflate to their claimed size
+                zi = zf.getinfo(f"zz-honest/{kind}{k}.xml")
+                if len(zf.read(zi)) != zi.file_size:
+                    raise MachineryError("honest member does not inflate to its size")
         want = [(m["fs"], m["cs"], 1 if m["dir"] else 0) for m in ms]
         if seen != want:
             raise MachineryError(f"forged ZIP '{label}' reads back differently: {seen[-3:]} vs {want[-3:]}")
@@ -882,8 +1006,9 @@ def _w_real(tag, job, out):
                 gs.append([1, _limbs(e[0]), _limbs(e[1]), e[2]])
         tr, outcome = rec.session(f"real:{tag}:{label}", lambda: fn(io.BytesIO(data), "forged." + ext))
         proto.append(tr)
-        cases.append({"label": label, "forged": forged, "nentries": len(seen), "gs": gs, "rej": outcome == "ZipBomb",
-                      "outcome": outcome})
+        honest = [(kind, len(_honest_payload(kind)), honest_cache[kind]["cs"]) for kind, _ in c["honest"]]
+        cases.append({"label": label, "forged": [list(e[:3]) for e in forged] + [["honest"] + list(h) for h in honest],
+                      "nentries": len(seen), "gs": gs, "rej": outcome == "ZipBomb", "outcome": outcome})
     Path(out).write_text(json.dumps({"target": tag, "blim": blim, "cases": cases, "proto": proto,
                                      "base": str(basep)}))
 
